@@ -31,15 +31,17 @@ R, W = C.R, C.W
 
 BOUND = ('ordered rule lists (registration order matters for the tree): every rule of the exhaustive segment universe '
          '(17 segment forms: literals a/ab/b, :x, anonymous, int, anonymous int, float, re([ab]+), re(a*), path, a<x>, a<x>b, '
-         '<x>b, <n:int><x>, a<n>-<m>, <p:path>b; <=2 segments quick / <=3 thorough) and of the 68-rule hand pool as a '
-         'singleton in each of the 3 syntax flavours; every ordered pair of the pool (quick: of a 40-rule core); every '
-         'ordered 3-subset (thorough: 4-subset) of 8 prefix-sharing families of 8 rules (literal splits, literal-vs-wildcard '
-         'backtracking, in-segment wildcards, int, float, re, path, several rules on one pattern with different '
-         'names/methods); seeded random lists of 2..4 (thorough 2..6) rules; x request paths: all strings of length '
-         '<=3 (pairs/families quick), <=4 (thorough), <=5 quick / <=6 thorough on 8 deep rule lists, over '
+         '<x>b, <n:int><x>, a<n>-<m>, <p:path>b; <=3 segments; the 3-segment ones in quick with one flavour and fewer '
+         'paths) and of the 68-rule hand pool as a singleton in each of the 3 syntax flavours; every ordered pair of the '
+         'pool (quick: of a 40-rule core); every ordered 3-subset (thorough: 4-subset) and some full orders of 9 '
+         'prefix-sharing families of 8 rules (literal splits, literal-vs-wildcard backtracking, in-segment wildcards, int, '
+         'float, re, empty-matching re, path, several rules on one pattern with different names/methods); 2500 '
+         '(thorough 60000) seeded random lists of 2..4 (thorough 2..6) rules; x request paths: all strings of length '
+         '<=3 (thorough <=4; singles <=4), <=5 quick / <=6 thorough on 8 deep rule lists in both orders, over '
          "{a,b,/,1,-,.,e-acute,CR} behind a leading '/', plus rule-guided paths (each wildcard filled from a value "
-         'pool incl. empty, CR, non-ASCII, signs, dots; then perturbed) x every verb registered in the list; '
-         'resolve-level always, through Ombott.__call__ for the guided paths and all paths of length <=3 of singles/pairs')
+         'pool incl. empty, CR, non-ASCII, signs, dots; then perturbed), plus numerals of 4300/4301 digits in numeric '
+         'wildcards; x every verb registered in the list; resolve-level always, through Ombott.__call__ for guided '
+         'paths and paths of length <=3 on all singles and a fixed fraction of the other lists')
 NONTRIVIAL_RULE = ('distinct (ordered rule list with flavours and methods, path source); non-trivial = the list has a '
                    'wildcard or at least two rules; one case checks 50..5000 (path, verb) requests')
 
@@ -151,6 +153,13 @@ def gen_cases(tier, seed):
             yield _case([rule], [fl], [['guided', k, 60], ['all', 3, 0, 1]], app=1)
             if not quick or k % 4 == 0:
                 yield _case([rule], [fl], [['all', 4, 0, 1]])
+
+    if quick:       # three-segment universe: one flavour each (rotating), guided paths and all paths of length <= 2
+        for rule in C.universe_rules(3):
+            if sum(seg[1].count('/') for seg in rule if S.is_lit(seg)) < 3 or not C.rule_has_wildcard(rule):
+                continue
+            k += 1
+            yield _case([rule], [S.FLAVOURS[k % 3]], [['guided', k, 40], ['all', 2, 0, 1]], app=1 if k % 8 == 0 else 0)
 
     # B. ordered pairs of the pool
     core = pool if not quick else [r for i, r in enumerate(pool) if i % 5 != 4][:40]
